@@ -235,7 +235,7 @@ CFG_TRUST = ['CFG._productions is taken to be a set (what every constructor call
              'language preservation of the clean-up steps from their proved structure: textbook theorems (Hopcroft-Motwani-Ullman 7.2, 7.7, 7.13), assumed, backed by the bounded language comparison']
 mixed('C09', ['CFG.get_reachable_symbols', 'CFG.get_unit_pairs', 'CFG.eliminate_unit_productions', 'CFG.remove_useless_symbols', 'fn.get_productions_d'], [],
       'Deductive for get_reachable_symbols (= closure of "occurs in a body of"), get_unit_pairs (= unit-derivability from every variable), eliminate_unit_productions (exactly the non-unit bodies of every unit-reachable variable, and no unit production in the result), remove_useless_symbols (modular: given the assumed contract of get_generating_symbols the result keeps exactly the productions over generating symbols whose head is reachable, and only generating and reachable symbols) and the helper get_productions_d.',
-      'contract-based deductive verification (pyvc + z3) of the structural CFG clean-up functions; bounded run-time contract checking for nullable/generating counters, epsilon removal, terminal lifting, binarisation and for the language statements', CFG_TRUST + ['get_generating_symbols is proved in contracts/cfg_gen.py (worklist with counters, against the least-set spec GNS); assumed there: the contract of the table builder CFG._set_impacts_and_remaining_lists (one counter cell per non-empty production initialised with the body length, one _impacts entry per body position), the four List.countP / List.count facts proved in bridge/count.lean, the induction principle of the least set (one instance), and that the memo fields hold None or the computed set'])
+      'contract-based deductive verification (pyvc + z3) of the structural CFG clean-up functions; bounded run-time contract checking for nullable/generating counters, epsilon removal, terminal lifting, binarisation and for the language statements', CFG_TRUST + ['get_generating_symbols is proved in contracts/cfg_gen.py (worklist with counters, against the least-set spec GNS); the table builder CFG._set_impacts_and_remaining_lists is proved there too (one counter cell per non-empty production initialised with the body length, one _impacts entry per body position; ghost fields pr / cell relate cells and productions), and the worklist is proved to give every counter back; assumed: the List.countP / List.count / List.take facts proved in bridge/count.lean (NP, Occ, OccPre), the induction principle of the least set (one instance), Python lists of ints viewed as (length, array) with non-negative indices only, and that a freshly constructed grammar has its memo fields and tables set to None (the representation invariant then holds for every object reachable through the proved functions)'])
 mixed2('C10', [('contracts.cfg', 'CFG.reverse'), ('contracts.cfg', 'CFG.__invert__')] + [('contracts.cfg_subst', k) for k in ('CFG.substitute', 'CFG.union', 'CFG.concatenate', 'CFG.get_closure', 'CFG.get_positive_closure', 'CFG.__or__', 'CFG.__add__')], ['bridge/cfgrev.lean'],
       'Deductive for CFG.reverse: the result has exactly the productions with reversed bodies, same symbols and start symbol (all grammars); Mathlib ContextFreeGrammar.language_reverse gives the mirror language. '
       'Deductive for CFG.substitute: the result is exactly one renamed copy of the host productions, with every substituted terminal replaced by the renamed start symbol of its grammar, plus one renamed copy of the productions of every substituted grammar, under renamings proved injective with pairwise disjoint ranges (ghost results R0, G, FR) - for every host, every substitution, operands sharing names or being the same object. '
@@ -245,7 +245,7 @@ mixed2('C10', [('contracts.cfg', 'CFG.reverse'), ('contracts.cfg', 'CFG.__invert
                        'Variable(str(v.value) + "#SUBS#" + str(idx)) is an uninterpreted function of (v, idx) whose idx can be read back from the name (string fact, assumed); Variable("...") / Terminal("...") with different texts are different values',
                        'sequence extensionality is used through explicit instances (valid in the theory of sequences); pointwise facts about list.append and a theory lemma about seq[lo:] are added by the engine',
                        'the operator forms __or__, __add__, __invert__ are proved as delegations with the postcondition of union, concatenate, reverse'])
-mixed2('C12', [('contracts.cfg', 'CFG.is_empty'), ('contracts.cfg', 'CFG.get_reachable_symbols')] + [('contracts.cfg_gen', k) for k in ('CFGGen._get_generating_or_nullable', 'CFGGen.get_generating_symbols', 'CFGGen.get_nullable_symbols')], ['bridge/count.lean'],
+mixed2('C12', [('contracts.cfg', 'CFG.is_empty'), ('contracts.cfg', 'CFG.get_reachable_symbols')] + [('contracts.cfg_gen', k) for k in ('CFGGen._set_impacts_and_remaining_lists', 'CFGGen._get_generating_or_nullable', 'CFGGen.get_generating_symbols', 'CFGGen.get_nullable_symbols')], ['bridge/count.lean'],
       'Deductive for get_reachable_symbols (exactly the symbols occurring in a sentential form derivable from the start symbol, by closure induction), for get_generating_symbols and get_nullable_symbols (the counter worklist _get_generating_or_nullable returns exactly the least set containing the terminals - resp. nothing - and the head of every production whose body lies in it; the memoising wrappers return it and keep their memo consistent), and for is_empty (start symbol not generating).',
       'contract-based deductive verification (pyvc + z3, Mathlib for the counting facts) for reachability, generating / nullable symbols and emptiness; bounded run-time contract checking for finiteness (networkx) and word enumeration', CFG_TRUST[:2] + ['get_generating_symbols is proved in contracts/cfg_gen.py (worklist with counters, against the least-set spec GNS); assumed there: the contract of the table builder CFG._set_impacts_and_remaining_lists (one counter cell per non-empty production initialised with the body length, one _impacts entry per body position), the four List.countP / List.count facts proved in bridge/count.lean, the induction principle of the least set (one instance), and that the memo fields hold None or the computed set'])
 
@@ -271,13 +271,15 @@ C19_FRAME_JOBS = [('contracts.fa', k) for k in ('ENFA.get_intersection', 'ENFA.g
     + [('contracts.cfg_subst', k) for k in ('CFG.substitute', 'CFG.union', 'CFG.concatenate', 'CFG.get_closure', 'CFG.get_positive_closure')] \
     + [('contracts.cfg2pda', 'CFG.to_pda'), ('contracts.pda', 'PDA.to_final_state'), ('contracts.pda', 'PDA.to_empty_stack')] \
     + [('contracts.fst', k) for k in ('FST.union', 'FST.concatenate', 'FST.kleene_star')]
-mixed2('C19', [('contracts.cfg_cache', 'CFGCounters._get_generating_or_nullable')] + C19_FRAME_JOBS, [],
+mixed2('C19', [('contracts.cfg_cache', 'CFGCounters._get_generating_or_nullable'), ('contracts.cfg_gen', 'CFGGen._set_impacts_and_remaining_lists'), ('contracts.cfg_gen', 'CFGGen._get_generating_or_nullable'),
+               ('contracts.cfg_gen', 'CFGGen.get_generating_symbols'), ('contracts.cfg_gen', 'CFGGen.get_nullable_symbols')] + C19_FRAME_JOBS, [],
        'Deductive, two pieces. (1) CFG._get_generating_or_nullable restores the memoised counters: for every grammar and iteration order, _remaining_lists and _impacts hold on return exactly the values they had right after _set_impacts_and_remaining_lists() (and the values at entry when the tables were already built), so get_generating_symbols / get_nullable_symbols / is_empty / remove_useless_symbols start from the same counters whatever was called before (property anchor "restore of decremented counters"). '
+       'In the second view (contracts/cfg_gen.py) the representation invariant of the memoised tables and memo fields (tables consistent with the productions, counters at their initial values, memo None or the least set) is proved to be established by the table builder and preserved by the worklist and by get_generating_symbols / get_nullable_symbols - the answer of these queries is therefore the same function of the productions whatever was called before. '
        '(2) For 26 conversions and operations (boolean operations, reverse, copy, determinisation, epsilon removal, to_fst on automata; reverse, unit elimination, useless-symbol removal, substitute, union, concatenate, closures, to_pda on grammars; to_final_state / to_empty_stack on PDAs; union, concatenate, kleene_star on transducers) the obligations "frame: <operand> unchanged" are discharged: the abstract view (states, alphabet, transitions, start/final; variables, terminals, start symbol, productions) of every operand is the same after the call, also when both operands are one object, and the result is a fresh object.',
        'contract-based deductive verification (pyvc + z3): restoration of the memoised counters of the CFG analyses, frame obligations of the proved conversions; bounded run-time contract checking (histories of calls compared with fresh equal objects) for everything else',
        ['the frame obligations speak about the abstract views only: caches outside the view (Regex._enfa, CFG._normal_form, index_cfg_converter attributes on State/Variable/StackSymbol objects, IndexedGrammar.marked) are covered by the bounded histories only',
-        'contract of CFG._set_impacts_and_remaining_lists is ASSUMED (leaves built tables alone; builds tables whose (symbol, index) pairs address existing counters); _remaining_lists is viewed as symbol -> (index -> count)',
-        'what _get_generating_or_nullable computes is not specified in this contract (bounded stand-in of C09/C12)'])
+        'in contracts/cfg_cache.py the contract of CFG._set_impacts_and_remaining_lists is assumed (it is proved in the other view, contracts/cfg_gen.py); _remaining_lists is viewed as symbol -> (index -> count) there and as symbol -> (length, array) in cfg_gen',
+        'other caches (CFG._normal_form, Regex._enfa, converter indices) are not under contract'])
 
 mixed2('C16', [('contracts.fst', k) for k in ('FST.add_transition', 'FST.add_start_state', 'FST.add_final_state', 'Renaming.add_state', 'Renaming.get_name', 'Renaming.add_states',
                                              'FST._add_transitions_to', 'FST._add_start_states_to', 'FST._add_final_states_to', 'FST._add_extremity_states_to', 'FST._copy_into',
